@@ -134,8 +134,9 @@ def run(ctx):
                                       "%s(k*S) with k=%g is %.12g, expected %.12g from %s(S)" % (op, k, b[i], exp[i], op),
                                       {"F": v["F"], "D": v["D"], "E": v["E"], "base": float(a[i])})
         # ---- relabelling of the direction coordinate by +a
-        for a_ in angles:
-            rel = base.assign_coords(dir=base.dir + a_)
+        for ia, a_ in enumerate(angles):
+            # every other angle the new labels are reduced modulo 360 (the stored order then is no longer ascending)
+            rel = base.assign_coords(dir=(base.dir + a_) % 360.0 if ia % 2 else base.dir + a_)
             t1 = stat_table(rel)
             for op in t0:
                 for i, v in enumerate(vs):
@@ -144,8 +145,8 @@ def run(ctx):
                     if op in DIRS:
                         if math.isnan(x) or (op != "dp" and resultant_small(v, op)):
                             continue
-                        if op == "dp" and len(v["dp"]) > 1:
-                            continue
+                        # tied directional peaks are kept: relabelling changes no value, so whichever tied coordinate the library
+                        # reports for S it must report the same one, relabelled, for the relabelled S
                         ok = L.close((x + a_) % 360.0, y % 360.0, rel=tol, abs_=2e-3 if op != "dm" else 1e-7, circular=True)
                         # dm / dpm are computed angles and must be reported in [0, 360); dp is a direction *coordinate*
                         ok = ok and (op == "dp" or 0 <= y < 360.0)
